@@ -2,16 +2,16 @@ package c08
 
 import (
 	"bytes"
+	"errors"
 	"fmt"
-	"runtime/debug"
 	"strings"
 
-	"github.com/bronlabs/bron-crypto/pkg/base/serde"
 	"github.com/bronlabs/bron-crypto/pkg/commitments/hashcom"
 	"github.com/bronlabs/bron-crypto/pkg/proofs/sigma"
 	"github.com/bronlabs/bron-crypto/pkg/proofs/sigma/compiler/zk"
 
 	"verifmc/engine"
+	"verifmc/ref/cbor"
 )
 
 // challengeAlphabet is the 4-element challenge alphabet of the sigma-level checks: 0, 1, all-ones, a fixed pattern.
@@ -36,27 +36,33 @@ func sigmaLevel[X sigma.Statement, W sigma.Witness, A sigma.Statement, S sigma.S
 	p := c.mk(stream(c.name + "/sigma"))
 	x0, w0 := c.inst(0)
 	if err := p.ValidateStatement(x0, w0); err != nil {
-		x.Failf("sigma/validate-honest", "%s: ValidateStatement rejects the honest instance: %v", c.name, err)
+		failf(x, "sigma/validate-honest", "%s: ValidateStatement rejects the honest instance: %v", c.name, err)
 		return
 	}
 	a, s, err := p.ComputeProverCommitment(x0, w0)
 	if err != nil {
-		x.Failf("sigma/commit", "%s: ComputeProverCommitment: %v", c.name, err)
+		failf(x, "sigma/commit", "%s: ComputeProverCommitment: %v", c.name, err)
 		return
 	}
 	es := challengeAlphabet(p.GetChallengeBytesLength())
+	names := challengeNames
+	if c.unitMS > 1000 && !engine.Thorough() {
+		// quick, multi-second verifications: the two generic challenges {1, pattern}
+		es, names = []sigma.ChallengeBytes{es[1], es[3]}, []string{names[1], names[3]}
+	}
+	challengeNames := names
 	zs := make([]Z, len(es))
 	okZ := make([]bool, len(es))
 	for i, e := range es {
 		x.Case(fmt.Sprintf("%s/respond/%s", c.name, challengeNames[i]))
 		z, err := p.ComputeProverResponse(x0, w0, a, s, e)
 		if err != nil {
-			x.Failf("sigma/respond", "%s: ComputeProverResponse(challenge=%s): %v", c.name, challengeNames[i], err)
+			failf(x, "sigma/respond", "%s: ComputeProverResponse(challenge=%s): %v", c.name, challengeNames[i], err)
 			continue
 		}
 		zs[i], okZ[i] = z, true
 		if err := p.Verify(x0, a, e, z); err != nil {
-			x.Failf("sigma/complete", "%s: honest transcript for challenge %s does not verify: %v", c.name, challengeNames[i], err)
+			failf(x, "sigma/complete", "%s: honest transcript for challenge %s does not verify: %v", c.name, challengeNames[i], err)
 		}
 	}
 	extracted := 0
@@ -69,11 +75,11 @@ func sigmaLevel[X sigma.Statement, W sigma.Witness, A sigma.Statement, S sigma.S
 				x.Case(fmt.Sprintf("%s/extract/%s,%s", c.name, challengeNames[i], challengeNames[j]))
 				w, err := c.extract(p, x0, a, []sigma.ChallengeBytes{es[i], es[j]}, []Z{zs[i], zs[j]})
 				if err != nil {
-					x.Failf("sigma/extract-err", "%s: Extract(challenges %s,%s) failed: %v", c.name, challengeNames[i], challengeNames[j], err)
+					failf(x, "sigma/extract-err", "%s: Extract(challenges %s,%s) failed: %v", c.name, challengeNames[i], challengeNames[j], err)
 					continue
 				}
 				if err := p.ValidateStatement(x0, w); err != nil {
-					x.Failf("sigma/extract-invalid", "%s: Extract(challenges %s,%s) returned a witness the statement rejects: %v", c.name, challengeNames[i], challengeNames[j], err)
+					failf(x, "sigma/extract-invalid", "%s: Extract(challenges %s,%s) returned a witness the statement rejects: %v", c.name, challengeNames[i], challengeNames[j], err)
 					continue
 				}
 				extracted++
@@ -98,9 +104,9 @@ func sigmaLevel[X sigma.Statement, W sigma.Witness, A sigma.Statement, S sigma.S
 			}
 			w, err := c.extract(p, x0, a, []sigma.ChallengeBytes{es[i], es[j]}, []Z{zs[i], zs[i]})
 			if err != nil {
-				x.Failf("sigma/extract-cross", "%s: the response to challenge %s is also accepted under challenge %s, and Extract fails on these two accepting transcripts: %v", c.name, challengeNames[i], challengeNames[j], err)
+				failf(x, "sigma/extract-cross", "%s: the response to challenge %s is also accepted under challenge %s, and Extract fails on these two accepting transcripts: %v", c.name, challengeNames[i], challengeNames[j], err)
 			} else if err := p.ValidateStatement(x0, w); err != nil {
-				x.Failf("sigma/extract-cross", "%s: the response to challenge %s is also accepted under challenge %s, and Extract returns an invalid witness: %v", c.name, challengeNames[i], challengeNames[j], err)
+				failf(x, "sigma/extract-cross", "%s: the response to challenge %s is also accepted under challenge %s, and Extract returns an invalid witness: %v", c.name, challengeNames[i], challengeNames[j], err)
 			}
 		}
 	}
@@ -108,12 +114,15 @@ func sigmaLevel[X sigma.Statement, W sigma.Witness, A sigma.Statement, S sigma.S
 	for i, e := range es {
 		x.Case(fmt.Sprintf("%s/simulate/%s", c.name, challengeNames[i]))
 		sa, sz, err := p.RunSimulator(x0, e)
+		if err != nil && c.noSimulator != nil && (errors.Is(err, c.noSimulator) || strings.Contains(err.Error(), c.noSimulator.Error())) {
+			continue // documented: this protocol exposes no fixed-challenge simulator
+		}
 		if err != nil {
-			x.Failf("sigma/simulate-err", "%s: RunSimulator(challenge=%s): %v", c.name, challengeNames[i], err)
+			failf(x, "sigma/simulate-err", "%s: RunSimulator(challenge=%s): %v", c.name, challengeNames[i], err)
 			continue
 		}
 		if err := p.Verify(x0, sa, e, sz); err != nil {
-			x.Failf("sigma/simulate-verify", "%s: simulated transcript for challenge %s does not verify: %v", c.name, challengeNames[i], err)
+			failf(x, "sigma/simulate-verify", "%s: simulated transcript for challenge %s does not verify: %v", c.name, challengeNames[i], err)
 			continue
 		}
 		sims++
@@ -122,193 +131,89 @@ func sigmaLevel[X sigma.Statement, W sigma.Witness, A sigma.Statement, S sigma.S
 }
 
 // ---------------------------------------------------------------------------------------------
-// interactive zk compiler: honest run and every single message-leaf alteration
+// interactive zk compiler (compiler/zk): honest run and every single alteration of every message. Messages 1
+// (verifier's challenge commitment) and 3 (challenge || opening witness) are raw byte strings; they pass through
+// the same CBOR edit layer wrapped as one byte-string leaf (every bit of it is flipped; structural edits of the
+// wrapper simply fail to decode). Messages 2 (commitment a) and 4 (response z) are edited on their CBOR tree.
 
-// zkEdit edits one message of the CURRENT run (errgroup workers may interleave reads of the shared randomness, so the
-// messages of two runs need not be byte-identical; edits are therefore always applied to the run's own message).
-type zkEdit func(msg int, raw []byte) []byte
-
-// zkOnce runs the 5-move protocol, substituting the edited message; it reports whether the verifier accepted.
-// stage "noop"/"exempt" = the edit did not change the message / re-encodes the very same value.
-// With screen set, an edited message whose decoded form has a nil component the original lacks stops the run with
-// stage "ISOLATE" (the caller repeats that run in a child process, see isolate_test.go).
-func zkOnce[X sigma.Statement, W sigma.Witness, A sigma.Statement, S sigma.State, Z sigma.Response](c *sigCase[X, W, A, S, Z], ed zkEdit, screen bool) (accepted bool, stage string, msgs [5][]byte) {
-	defer func() {
-		if r := recover(); r != nil {
-			if he, ok := r.(engine.HarnessError); ok {
-				panic(he)
-			}
-			accepted, stage = false, fmt.Sprintf("PANIC@%s|%v", libSite(string(debug.Stack())), r)
-		}
-	}()
-	x0, w0 := c.inst(0)
-	pr, err := zk.NewProver(proverCtx().build(), c.mk(stream(c.name+"/zk/p")), x0, w0)
-	if err != nil {
-		return false, "NewProver:" + err.Error(), msgs
+func rawStep(m int, raw []byte, ed zkEdit, msgs [][]byte) ([]byte, string) {
+	enc := cbor.Encode(&cbor.Node{Kind: cbor.Bytes, Data: raw})
+	msgs[m] = enc
+	b := ed(m, enc)
+	if b == nil {
+		return raw, ""
 	}
-	ve, err := zk.NewVerifier(verifierCtx().build(), c.mk(stream(c.name+"/zk/v")), x0, stream(c.name+"/zk/vrng"))
-	if err != nil {
-		return false, "NewVerifier:" + err.Error(), msgs
+	if bytes.Equal(b, enc) {
+		return raw, "noop"
 	}
-	ec, err := ve.Round1()
-	if err != nil {
-		return false, "Round1:" + err.Error(), msgs
+	n, err := cbor.Parse(b)
+	if err != nil || n.Kind != cbor.Bytes || n.Embedded || len(n.Data) != len(raw) {
+		return raw, fmt.Sprintf("decode-msg%d:not a %d-byte string", m, len(raw))
 	}
-	msgs[1] = append([]byte{}, ec[:]...)
-	if b := ed(1, msgs[1]); b != nil {
-		copy(ec[:], b)
-	}
-	a, err := pr.Round2(ec)
-	if err != nil {
-		return false, "Round2:" + err.Error(), msgs
-	}
-	msgs[2] = must(serde.MarshalCBOR(a))
-	if b := ed(2, msgs[2]); b != nil {
-		if bytes.Equal(b, msgs[2]) {
-			return false, "noop", msgs
-		}
-		base := nilPaths(a)
-		a, err = serde.UnmarshalCBOR[A](b)
-		if err != nil {
-			return false, "decode-a:" + err.Error(), msgs
-		}
-		if np := nilPaths(a); screen && !sameStrings(np, base) {
-			return false, "ISOLATE:" + nilClass(base, np), msgs
-		}
-		if rb, err := serde.MarshalCBOR(a); err == nil && bytes.Equal(rb, msgs[2]) {
-			return false, "exempt", msgs
-		}
-	}
-	e, ew, err := ve.Round3(a)
-	if err != nil {
-		return false, "Round3:" + err.Error(), msgs
-	}
-	msgs[3] = append(append([]byte{}, e...), ew[:]...)
-	if b := ed(3, msgs[3]); b != nil {
-		e = hashcom.Message(b[:len(e)])
-		copy(ew[:], b[len(e):])
-	}
-	z, err := pr.Round4(e, ew)
-	if err != nil {
-		return false, "Round4:" + err.Error(), msgs
-	}
-	msgs[4] = must(serde.MarshalCBOR(z))
-	if b := ed(4, msgs[4]); b != nil {
-		if bytes.Equal(b, msgs[4]) {
-			return false, "noop", msgs
-		}
-		base := nilPaths(z)
-		z, err = serde.UnmarshalCBOR[Z](b)
-		if err != nil {
-			return false, "decode-z:" + err.Error(), msgs
-		}
-		if np := nilPaths(z); screen && !sameStrings(np, base) {
-			return false, "ISOLATE:" + nilClass(base, np), msgs
-		}
-		if rb, err := serde.MarshalCBOR(z); err == nil && bytes.Equal(rb, msgs[4]) {
-			return false, "exempt", msgs
-		}
-	}
-	if err := ve.Verify(z); err != nil {
-		return false, "Verify:" + err.Error(), msgs
-	}
-	return true, "accept", msgs
+	return n.Data, ""
 }
 
-// zkChildRun is the child-process side of an isolated interactive run.
-func zkChildRun[X sigma.Statement, W sigma.Witness, A sigma.Statement, S sigma.State, Z sigma.Response](c *sigCase[X, W, A, S, Z], m, idx int) (bool, string) {
-	_, _, msgs := zkOnce(c, func(int, []byte) []byte { return nil }, false)
-	eds := enumerateEdits(msgs[m], zkMode(c.heavy), zkIdx(c.heavy))
-	if idx >= len(eds) {
-		return false, "HARNESS:edit index out of range"
+func zkIA[X sigma.Statement, W sigma.Witness, A sigma.Statement, S sigma.State, Z sigma.Response](c *sigCase[X, W, A, S, Z]) *interactive {
+	ia := &interactive{name: c.name + "/zk", nMsgs: 4, mode: zkMode(c.heavy), idx: zkIdx(c.heavy), chunk: 8}
+	if !c.heavy {
+		ia.chunk = 64
 	}
-	acc, st, _ := zkOnce(c, func(msg int, raw []byte) []byte {
-		if msg != m {
-			return nil
+	ia.admit = func() (bool, string) {
+		p := c.mk(stream(c.name + "/zk/params"))
+		return p.SoundnessError() >= 80 && p.GetChallengeBytesLength() <= 32, fmt.Sprintf("soundness 2^-%d, challenge %d bytes", p.SoundnessError(), p.GetChallengeBytesLength())
+	}
+	ia.run = func(ed zkEdit, screen bool) (accepted bool, stage string, msgs [][]byte) {
+		msgs = make([][]byte, 5)
+		defer recoverStage(&accepted, &stage)
+		x0, w0 := c.inst(0)
+		pr, err := zk.NewProver(proverCtx().build(), c.mk(stream(c.name+"/zk/p")), x0, w0)
+		if err != nil {
+			return false, "NewProver:" + err.Error(), msgs
 		}
-		return eds[idx].gen(newWalker(raw))
-	}, false)
-	return acc, st
-}
-
-func zkRun[X sigma.Statement, W sigma.Witness, A sigma.Statement, S sigma.State, Z sigma.Response](x *engine.X, c *sigCase[X, W, A, S, Z], n *niInst) {
-	none := func(int, []byte) []byte { return nil }
-	p := c.mk(stream(c.name + "/zk/params"))
-	// documented admission rule of the interactive compiler
-	admit := p.SoundnessError() >= 80 && p.GetChallengeBytesLength() <= 32
-	ok, stage, msgs := zkOnce(c, none, true)
-	if !admit {
-		x.Case(c.name + "/zk/refusal")
-		if ok {
-			x.Failf("zk/admitted", "%s: zk compiler admitted a protocol outside its documented parameters (soundness %d, challenge %d bytes)", c.name, p.SoundnessError(), p.GetChallengeBytesLength())
+		ve, err := zk.NewVerifier(verifierCtx().build(), c.mk(stream(c.name+"/zk/v")), x0, stream(c.name+"/zk/vrng"))
+		if err != nil {
+			return false, "NewVerifier:" + err.Error(), msgs
 		}
-		x.Observe(c.name, " zk refused at ", stageKey(stage))
-		x.Trivial()
-		return
-	}
-	x.Case(c.name + "/zk/honest")
-	if !ok {
-		x.Failf("zk/complete", "%s: honest interactive run rejected at %s", c.name, stage)
-		return
-	}
-	stages := map[string]int{}
-	record := func(m int, desc, class string, acc bool, st string) {
-		switch {
-		case strings.HasPrefix(st, "CRASH@"):
-			site, rest, _ := strings.Cut(strings.TrimPrefix(st, "CRASH@"), "|")
-			x.Failf("crash@"+site, "%s: the process was TERMINATED by an unrecoverable panic in a library goroutine (in %s) although only message %d of the interactive run was edited (%s): %s", c.name, site, m, desc, rest)
-		case strings.HasPrefix(st, "PANIC@"):
-			site, rest, _ := strings.Cut(strings.TrimPrefix(st, "PANIC@"), "|")
-			x.Failf("panic@"+site, "%s: interactive run panicked in %s although only message %d was edited (%s): %s", c.name, site, m, desc, rest)
-		case acc:
-			x.Failf("accepted/zk/msg"+fmt.Sprint(m), "%s: verifier ACCEPTED although message %d was edited: %s", c.name, m, desc)
-		default:
-			stages[stageKey(st)]++
+		ec, err := ve.Round1()
+		if err != nil {
+			return false, "Round1:" + err.Error(), msgs
 		}
-	}
-	// raw byte messages (1: challenge commitment, 3: challenge||opening witness): every bit
-	for _, m := range []int{1, 3} {
-		for bit := 0; bit < 8*len(msgs[m]); bit++ {
-			x.Case(fmt.Sprintf("%s/zk/msg%d/bit%d", c.name, m, bit))
-			acc, st, _ := zkOnce(c, func(msg int, raw []byte) []byte {
-				if msg != m {
-					return nil
-				}
-				out := append([]byte{}, raw...)
-				out[bit/8] ^= 0x80 >> (bit % 8)
-				return out
-			}, true)
-			record(m, fmt.Sprintf("bit %d flipped", bit), "bit", acc, st)
+		b1, st := rawStep(1, ec[:], ed, msgs)
+		if st != "" {
+			return false, st, msgs
 		}
-	}
-	// structured messages (2: commitment a, 4: response z): every edit of their CBOR encoding
-	for _, m := range []int{2, 4} {
-		for idx, ed := range enumerateEdits(msgs[m], zkMode(c.heavy), zkIdx(c.heavy)) {
-			x.Case(fmt.Sprintf("%s/zk/msg%d/%s", c.name, m, ed.desc))
-			acc, st, _ := zkOnce(c, func(msg int, raw []byte) []byte {
-				if msg != m {
-					return nil
-				}
-				return ed.gen(newWalker(raw))
-			}, true)
-			if strings.HasPrefix(st, "ISOLATE:") {
-				// decoded message carries a nil component: repeat this run in a child process
-				res := runChild(fmt.Sprintf("zk|%s|%d|%d", n.name, m, idx), nil)
-				switch res.outcome {
-				case "ACCEPT":
-					acc, st = true, "accept"
-				case "REJECT":
-					acc, st = false, "isolated-"+res.detail
-				case "PANIC":
-					acc, st = false, "PANIC@"+res.site+"|"+res.detail
-				default:
-					acc, st = false, "CRASH@"+res.site+"|"+res.detail
-				}
-			}
-			record(m, ed.desc, ed.class, acc, st)
+		copy(ec[:], b1)
+		a, err := pr.Round2(ec)
+		if err != nil {
+			return false, "Round2:" + err.Error(), msgs
 		}
+		if a, st = step(2, a, ed, screen, msgs); st != "" {
+			return false, st, msgs
+		}
+		e, ew, err := ve.Round3(a)
+		if err != nil {
+			return false, "Round3:" + err.Error(), msgs
+		}
+		b3, st := rawStep(3, append(append([]byte{}, e...), ew[:]...), ed, msgs)
+		if st != "" {
+			return false, st, msgs
+		}
+		e = hashcom.Message(b3[:len(e)])
+		copy(ew[:], b3[len(e):])
+		z, err := pr.Round4(e, ew)
+		if err != nil {
+			return false, "Round4:" + err.Error(), msgs
+		}
+		if z, st = step(4, z, ed, screen, msgs); st != "" {
+			return false, st, msgs
+		}
+		if err := ve.Verify(z); err != nil {
+			return false, "Verify:" + err.Error(), msgs
+		}
+		return true, "accept", msgs
 	}
-	x.Observe(c.name, " zk ", fmt.Sprint(stages))
+	registerIA(ia)
+	return ia
 }
 
 func stageKey(s string) string {
@@ -318,15 +223,6 @@ func stageKey(s string) string {
 		}
 	}
 	return s
-}
-
-// panicClass names the cause class of a panic for the finding key: edits that put a CBOR null (or drop a
-// component so that a field stays nil) are keyed together.
-func panicClass(class, desc string) string {
-	if strings.Contains(desc, "null") {
-		return "null-component"
-	}
-	return class
 }
 
 // nilClass names the kind of the first nil component that the edited value has and the original lacks.
